@@ -592,4 +592,52 @@ example : (Machine.init.run [.new (some 3) 0, .sys 0 default, .sys 0 default, .c
       .rev 2 none true]).paths.map (·.frames) = [[0, 1], [2, 3], [1, 0, 3], [4, 5, 6]] := by
   rfl
 
+
+/-! ## classification has no memory: it is a function of the order values the frames hold NOW -/
+
+/-- **success agrees with the maximum**: `success(target)` iff some frame lies strictly above. -/
+theorem success_agrees (ops : List Int) (t : Int) (hne : ops ≠ []) :
+    ∃ b, success ops t = .ok b ∧ (b = true ↔ ∃ y ∈ ops, t < y) := by
+  obtain ⟨v, j, hv, hj, hall, _⟩ := ordermax_agrees ops hne
+  refine ⟨decide (v > t), by simp [success, hv], ?_⟩
+  simp only [decide_eq_true_eq]
+  constructor
+  · intro h; exact ⟨v, List.mem_of_getElem? hj, h⟩
+  · rintro ⟨y, hy, h⟩; have := hall y hy; omega
+
+/-- **The classification of a path object reads the current frames**: whenever every frame has an
+    order value, all six methods answer `classifySeq` of the sequence `[pp.order[0] for pp in
+    phasepoints]` as it is in the heap at the time of the call — whatever was asked before. -/
+theorem classify_reads_current_orders (h : Heap) (p : Path) (intf : List Int) (t : Int) (seq : List Int)
+    (hs : orderSeq h p = some seq) : Path.classify h p intf t = classifySeq seq intf t := by
+  simp [Path.classify, hs]
+
+/-- asking for a classification changes neither the heap nor any path (no cache, no side effect) -/
+theorem classify_pure (m : Machine) (i : Nat) (intf : List Int) (t : Int) :
+    (m.step (.classify i intf t)).heap = m.heap ∧ (m.step (.classify i intf t)).paths = m.paths := by
+  simp only [Machine.step]
+  cases m.paths[i]? <;> exact ⟨rfl, rfl⟩
+
+/-- **classify ∘ applyOps = classifySeq ∘ orders ∘ applyOps.** After ANY op program (including earlier
+    classifications, in-place `order` re-assignment, frame replacement, the extender-style
+    `phasepoints[:-1] + seg`, `+=`, append, delete, reverse, copy, paste) a classification of path
+    `i` reports exactly `classifySeq` of the order sequence path `i` holds at that moment. -/
+theorem classify_after_any_program (prog : List Op) (i : Nat) (p : Path) (intf : List Int) (t : Int)
+    (seq : List Int) (hp : (Machine.init.run prog).paths[i]? = some p)
+    (hs : orderSeq (Machine.init.run prog).heap p = some seq) :
+    ((Machine.init.run prog).step (.classify i intf t)).log.getLast?
+      = some (showCls (classifySeq seq intf t)) := by
+  simp only [Machine.step, hp, Machine.say, List.getLast?_append, List.getLast?_singleton,
+    classify_reads_current_orders _ p intf t seq hs]
+  rfl
+
+example :
+    let v : Vals := { config := (0, 0), order := [0], velRev := false, ekin := none, vpot := none,
+                      pos := 0, vel := 0, box := 0, temp := 0 }
+    (Machine.init.run [.new (some 9) 0, .sys 0 v, .sys 0 { v with order := [1] }, .sys 0 { v with order := [3] },
+        .classify 0 [0, 2, 4] 2, .set 0 2 (.order [5]), .classify 0 [0, 2, 4] 2]).log.drop 4
+      = ["min=0,0;max=3,2;chk=L,None,M,010;suc=True;sp=L;ep=None", "set",
+         "min=0,0;max=5,2;chk=L,R,M,011;suc=True;sp=L;ep=R"] := by
+  rfl
+
 end Infretis.C15
